@@ -398,3 +398,6 @@ def n_calls(ex, p, callee):
 def was_called(ex, p, callee):
     cs = z3.simplify(callee.t).as_string()
     return VBool(any(ev[0].endswith(cs) for ev in p.events))
+
+
+REG.specfuncs["hobj"] = obj        # alias for contracts whose function has a parameter called `obj`
